@@ -4,6 +4,15 @@ use grep_matcher::{Captures, Match, Matcher};
 use grep_printer::StandardBuilder;
 use grep_searcher::{Searcher, Sink, SinkContext, SinkFinish, SinkMatch};
 
+/// kinds served by this module
+pub fn dispatch(kind: u32, v: &Val) -> Option<Val> {
+    match kind {
+        1901 => Some(run_interpolate(v)),
+        1902 => Some(run_oracle(v)),
+        _ => None,
+    }
+}
+
 /// Captures backed by explicit texts: group i has text caps[i] (laid out in a synthetic haystack).
 struct TableCaps { spans: Vec<Option<Match>> }
 impl Captures for TableCaps {
